@@ -286,6 +286,11 @@ def index_diff(ret, ref):
 
 def _same_dtype(a, b):
     if a == b:
+        # (pandas calls two unordered categorical dtypes equal when they list the same categories in any order; a
+        # column whose categories were re-ordered has other codes, sorts and groups differently: not "unchanged")
+        if hasattr(a, "categories") and hasattr(b, "categories") and a.categories is not None and b.categories is not None:
+            return [cell_repr(x) for x in a.categories] == [cell_repr(x) for x in b.categories] \
+                and bool(a.ordered) == bool(b.ordered)
         return True
     # a datetime64 column of another resolution holds the same values (pandera's DateTime is ns-only; which
     # resolution a dtype string resolves to is C09's subject): not a value change
